@@ -423,6 +423,10 @@ trait Val: Sized + Clone + PartialEq {
     fn f_pow(_a: &Self, _n: usize) -> Vec<Option<Self>> {
         vec![None]
     }
+    /// Pow with a signed exponent (i32 / i64 / isize); a negative exponent goes through inv().unwrap()
+    fn f_powz(_a: &Self, _n: i64) -> Vec<Option<Self>> {
+        vec![None]
+    }
     fn f_mapg(_a: &Self, _k: i64) -> Vec<Option<Self>> {
         vec![None]
     }
@@ -537,6 +541,13 @@ where
             guarded(|| Pow::pow(a, n as u64)),
             guarded(|| Pow::pow(a, n as i32)),
             guarded(|| Pow::pow(a, n as i64)),
+            guarded(|| Pow::pow(a, n as isize)),
+        ]
+    }
+    fn f_powz(a: &Self, n: i64) -> Vec<Option<Self>> {
+        vec![
+            guarded(|| Pow::pow(a, n as i32)),
+            guarded(|| Pow::pow(a, n)),
             guarded(|| Pow::pow(a, n as isize)),
         ]
     }
@@ -658,7 +669,7 @@ fn op_arity(name: &str) -> usize {
     match name {
         "asmono" | "inv" | "unit" | "nunit" => 2,
         "set" | "neg" | "eq" | "coef" | "ev" | "ltf" => 3,
-        "add" | "sub" | "mul" | "lmul" | "smul" | "pow" | "mapg" | "filt" | "appl" => 4,
+        "add" | "sub" | "mul" | "lmul" | "smul" | "pow" | "powz" | "mapg" | "filt" | "appl" => 4,
         _ => panic!("bad op {}", name),
     }
 }
@@ -674,7 +685,7 @@ fn run_prog<V: Val>(t: &[&str]) -> String {
         let a = &t[k..k + op_arity(name)];
         k += a.len();
         match name {
-            "set" | "add" | "sub" | "mul" | "lmul" | "neg" | "smul" | "pow" | "mapg" | "filt" | "appl" => {
+            "set" | "add" | "sub" | "mul" | "lmul" | "neg" | "smul" | "pow" | "powz" | "mapg" | "filt" | "appl" => {
                 let d = ix(a[1]);
                 let forms: Vec<Option<V>> = match name {
                     "set" => match guarded(|| parse_terms::<V>(a[2])) {
@@ -700,6 +711,7 @@ fn run_prog<V: Val>(t: &[&str]) -> String {
                         Some(c) => V::f_smul(&regs[ix(a[2])], &c),
                     },
                     "pow" => V::f_pow(&regs[ix(a[2])], ix(a[3])),
+                    "powz" => V::f_powz(&regs[ix(a[2])], a[3].parse().unwrap()),
                     "mapg" => V::f_mapg(&regs[ix(a[2])], a[3].parse().unwrap()),
                     "filt" => V::f_filt(&regs[ix(a[2])], a[3].parse().unwrap()),
                     "appl" => V::f_appl(&regs[ix(a[2])], a[3].parse().unwrap()),
@@ -1543,6 +1555,49 @@ impl PB {
                 }
                 s
             }
+            "powz" if mt.is_poly() && rt.has_units() => {
+                let n: i64 = a[3].parse().unwrap();
+                let x = reg(a[2]);
+                // n >= 0: as pow.  n < 0: the call succeeds only on a single term c*x^i with c a unit and
+                // returns (c^-1 x^-i)^|n|; otherwise it panics and the destination keeps its value, so the
+                // new shadow is the join of the old one and the would-be result.
+                let base = if n >= 0 {
+                    x
+                } else {
+                    let (b1, d1) = match rt {
+                        RT::F3 => (0, 1),
+                        RT::Zi | RT::Zb => (1, 1), // the units are 1, -1
+                        _ => {
+                            // c = p/q with |p| < 2^b and q | d:  c^-1 = q/p, |q| <= d, p divides lcm(1..2^b - 1)
+                            if x.b > 4 {
+                                return None;
+                            }
+                            let mut l: u128 = 1;
+                            for k in 1..(1u128 << x.b) {
+                                l = lcm128(l, k)?;
+                            }
+                            (bitlen(x.d), l)
+                        }
+                    };
+                    Sh { t: 1, e: x.e, b: b1, d: d1 }
+                };
+                let mut s = SH_ONE;
+                for _ in 0..n.unsigned_abs() {
+                    s = sh_mul(rt, s, base)?;
+                    if !sh_ok(rt, mt, &mut s) {
+                        return None;
+                    }
+                }
+                if n >= 0 {
+                    s
+                } else {
+                    let old = reg(a[1]);
+                    let d = lcm128(old.d, s.d)?;
+                    let fb = |x: u128| if x <= 1 { 0 } else { bitlen(x) };
+                    let nb = (old.b + fb(d / old.d)).max(s.b + fb(d / s.d));
+                    Sh { t: old.t.max(s.t), e: old.e.max(s.e), b: if rt == RT::F3 { 0 } else { nb }, d }
+                }
+            }
             "mapg" | "filt" if mt == MT::Fr => {
                 if a[3].parse::<i64>().unwrap() <= 0 {
                     return None;
@@ -1678,7 +1733,13 @@ fn rand_prog(r: &mut Rng, rt: RT, mt: MT) -> String {
         } else if w < 70 {
             format!("lmul {} {} {}", d, a, b)
         } else if mt.is_poly() {
-            if w < 90 { format!("mul {} {} {}", d, a, b) } else { format!("pow {} {} {}", d, a, r.below(5)) }
+            if w < 90 {
+                format!("mul {} {} {}", d, a, b)
+            } else if rt.has_units() && r.chance(1, 3) {
+                format!("powz {} {} {}", d, a, r.range(-3, 2))
+            } else {
+                format!("pow {} {} {}", d, a, r.below(5))
+            }
         } else if w < 80 {
             format!("mapg {} {} {}", d, a, r.range(1, 4))
         } else if w < 90 {
@@ -1908,6 +1969,14 @@ fn template(r: &mut Rng, rt: RT, mt: MT, which: u64) -> Option<String> {
             op!("eq 2 3");
             op!("inv 0");
             op!("unit 1");
+            if rt.has_units() {
+                // x^-2 = (x^-1)^2, (x + x^-1)^-1 panics
+                op!("powz 4 0 -2");
+                op!("pow 3 1 2");
+                op!("eq 3 4");
+                op!("add 2 0 1");
+                op!("powz 4 2 -1");
+            }
             op!("add 2 0 1");
             op!("pow 2 2 2");
             op!("set 3 {}@{}+{}@{}+{}@{}", var_pow(mt, 2), o1, var_pow(mt, -2), o1, unit_mono(mt), c_int(rt, 2));
@@ -2175,6 +2244,11 @@ const CORPUS: &[&str] = &[
     "prog Zi u3 2 set 0 1,2,3@2+0,0,0@-7 ev 0 2,1,-1 ev 0 0,0,0 mul 1 0 0 ev 1 1,1,1",
     "prog Zi i2 2 set 0 -1,-1@3 inv 0 unit 0 set 0 -1,-1@-1 inv 0 unit 0 nunit 0 asmono 0",
     "prog Zi u2 2 set 0 0 mul 1 0 0 pow 1 0 0 pow 1 0 1 asmono 1 inv 1 unit 1 nunit 0 eq 0 1 lmul 1 0 1",
+    "prog Zi i1 3 set 0 2@-1 powz 1 0 -3 powz 2 0 2 mul 2 2 1 powz 2 0 0 set 0 2@-1+0@1 powz 1 0 -1 set 0 1@2 powz 1 0 -2 set 0 0 powz 1 0 -1",
+    "prog Zi u1 2 set 0 0@-1 powz 1 0 -3 set 0 1@1 powz 1 0 -1 powz 1 0 3",
+    "prog Qi i2 2 set 0 1,-2@-2/3 powz 1 0 -2 powz 1 1 -1 set 0 1,-2@-2/3+0,0@1/2 powz 1 0 -1",
+    "prog F3 in 2 set 0 0^1,3^-2@2 powz 1 0 -3 mul 1 1 0 powz 1 0 -1 mul 1 1 0",
+    "prog Qb un 2 set 0 -@5/7 powz 1 0 -2 set 0 2^1@5/7 powz 1 0 -2",
     "prog F3 fr 3 set 0 1@1+1@1+1@1+2@2 set 1 2@1 add 2 0 1 eq 2 0 sub 2 0 1 smul 2 2 3 lmul 2 0 1 mapg 2 0 2 filt 2 0 2 appl 2 0 0 asmono 1 coef 0 2",
     "prog Qi fr 2 set 0 -4@1/2+-3@-1/2+7@0/3 mapg 1 0 2 asmono 1 filt 1 0 3 appl 1 0 -2 neg 1 1 smul 1 1 -2/4",
     "prog Gi fr 2 set 0 0@1:1+1@-1:-1 mapg 1 0 2 eq 1 0 appl 1 0 1 lmul 1 1 0",
